@@ -70,15 +70,10 @@ func (w *World) mayReturnNil() map[*ssa.Function]map[int]nilRet {
 			}
 		case *ssa.ChangeType:
 			return nilEvidence(x.X, seen)
-		case *ssa.Lookup:
-			if _, isMap := x.X.Type().Underlying().(*types.Map); isMap && !x.CommaOk {
-				return "returns a plain map read (nil for an absent key)"
-			}
+		// A returned map read is NOT taken as evidence: whether the cell is populated at that return is a
+		// path fact of the callee (ensure idioms, `ok`-guarded returns), which this path-insensitive summary
+		// cannot see; reads of map cells are covered where they are dereferenced in the same function.
 		case *ssa.Extract:
-			if lk, ok := x.Tuple.(*ssa.Lookup); ok && x.Index == 0 {
-				_ = lk
-				return "returns the value of a map read (nil for an absent key)"
-			}
 			if c, ok := x.Tuple.(*ssa.Call); ok {
 				if cal := c.Call.StaticCallee(); cal != nil {
 					if e, ok := out[cal][x.Index]; ok && !e.announced {
